@@ -21,6 +21,7 @@ class ValueProfile:
     use_restart = True
     use_interrupt = True
     use_nf = False
+    use_reg = False  # a registrar client issues (mostly rejected) registrations inside the history
     worlds = [("W-POSC", 0.85), ("W-SIMPLE", 0.15)]
     limited_prob = 0.35
 
@@ -35,7 +36,7 @@ class ValueProfile:
         n_steps = rng.randint(lo, hi)
         clients = []
         weights = []
-        for c in ALL_CLIENTS:
+        for c in ALL_CLIENTS + (["registrar"] if self.use_reg else []):
             w = self.client_bias.get(c, 1.0) * rng.choice([0, 0.5, 1, 1, 2])
             if c == "calculator":
                 w = max(w, 1.0)
@@ -43,7 +44,7 @@ class ValueProfile:
                 clients.append(c)
                 weights.append(w)
         fam = {}
-        for f in ("mk", "ar", "cmp", "cv", "val", "fmt", "lk", "cp", "curve", "fixed", "flt"):
+        for f in ("mk", "ar", "cmp", "cv", "val", "fmt", "lk", "cp", "curve", "fixed", "flt", "reg"):
             fam[f] = self.family_bias.get(f, 1.0) * rng.choice([0.3, 1, 1, 1])
         intr_rate = rng.choice([0, 0, 0.05, 0.1, 0.2]) if self.use_interrupt else 0
         restart_at = []
@@ -192,7 +193,8 @@ class C05(ValueProfile):
     prop = "C05"
     use_nf = True
     use_restart = False
-    client_bias = {"saboteur": 3.0, "curator": 0.4}
+    use_reg = True
+    client_bias = {"saboteur": 3.0, "curator": 0.4, "registrar": 0.6}
     family_bias = {"curve": 0.2}
     flt_kinds = ["pair", "pair", "convert", "convert", "create", "create", "unknown"]
 
